@@ -177,7 +177,7 @@ impl Rng {
 fn gen_dur(rng: &mut Rng) -> Arg {
     const CS: [i16; 15] = [i16::MIN, i16::MIN + 1, -32766, -4, -3, -2, -1, 0, 1, 2, 3, 4, 32765, i16::MAX - 1, i16::MAX];
     let npc = NPC as u64;
-    let ns: [u64; 12] = [0, 1, 2, 5, 1_000_000_000, 86_400_000_000_000, npc / 2, npc / 2 + 1, npc - 2, npc - 1, npc, npc + 1];
+    let ns: [u64; 16] = [0, 1, 2, 5, 5_300, 600_000, 5_000_700, 999_999, 1_000_000_000, 86_400_000_000_000, npc / 2, npc / 2 + 1, npc - 2, npc - 1, npc, npc + 1];
     if rng.below(5) == 0 {
         // instants within +/- 45 s of an entry of the IERS table (UTC or TAI count), at nanosecond resolution
         let tab = leap_table();
@@ -192,7 +192,7 @@ fn gen_dur(rng: &mut Rng) -> Arg {
         0 => rng.next() % (npc + 1),
         1 => (rng.next() % 200_000) * 1_000_000_000 * 86_400 / 86_400, // whole seconds near zero
         2 => rng.next(), // not normalized on purpose: constructor input
-        _ => ns[rng.below(12) as usize],
+        _ => ns[rng.below(16) as usize],
     };
     Arg::Dur(c, n)
 }
